@@ -199,7 +199,11 @@ Definition apply_cel (keep : bool) (h : handle) (e : cel) : handle :=
 Definition run_chain (keep : bool) (ch : list cel) : handle := fold_left (apply_cel keep) ch root.
 
 (* ---- finishers ---------------------------------------------------------------------------- *)
-Inductive rule := RNothing | RUpdates (cols : list col) | RAll.
+Inductive rule :=
+| RNothing | RUpdates (cols : list col) | RAll
+| RWhere (k : Z) (r : rule)     (* OnConflict.Where: DO UPDATE ... WHERE accts.age < k (the STORED row) *)
+| RTarget (k : Z) (r : rule).   (* OnConflict.TargetWhere: ON CONFLICT (id) WHERE age < k DO ... ; with the
+                                   non-partial primary-key index the predicate selects nothing *)
 Inductive fin :=
 | FSave (v : rec)
 | FCreateOC (ru : rule) (v : rec)
@@ -217,12 +221,22 @@ Definition with_id (k : Z) (v : rec) : rec := set_col CId (VInt k) v.
 Definition with_uat (now : Z) (v : rec) : rec := set_col CUat (VInt now) v.
 
 (* what ON CONFLICT (id) DO UPDATE writes into the stored row [old], [ex] = the excluded row *)
-Definition oc_apply (now : Z) (ru : rule) (ex old : rec) : rec :=
+Fixpoint oc_apply (now : Z) (ru : rule) (ex old : rec) : rec :=
   match ru with
   | RNothing => old
   | RUpdates cols => fold_left (fun o c => set_col c (get_col c ex) o) cols old
   | RAll =>   (* every inserted column but the primary key and autoCreateTime; autoUpdateTime := now *)
       with_uat now (fold_left (fun o c => set_col c (get_col c ex) o) [CName; CAge; CEmail; CDel] old)
+  | RWhere k r => if r_age old <? k then oc_apply now r ex old else old
+  | RTarget _ r => oc_apply now r ex old
+  end.
+(* does the conflict branch update the stored row (RowsAffected 1) or leave it (0)? *)
+Fixpoint rule_fires (ru : rule) (old : rec) : bool :=
+  match ru with
+  | RNothing => false
+  | RUpdates _ | RAll => true
+  | RWhere k r => (r_age old <? k) && rule_fires r old
+  | RTarget _ r => rule_fires r old
   end.
 
 (* INSERT ... [ON CONFLICT ...]; [ru] = None: plain Create, a duplicate key is an error *)
@@ -234,9 +248,10 @@ Definition create (t : table) (now : Z) (ru : option rule) (v : rec) : result :=
     match lookup t (r_id v1), ru with
     | None, _ => mk_result v1 1 false 1 (insert t v1)
     | Some _, None => mk_result v1 0 true 1 t
-    | Some _, Some RNothing => mk_result v1 0 false 1 t
-    | Some _, Some r => mk_result v1 1 false 1
-                          (upd_where (fun x => r_id x =? r_id v1) (oc_apply now r v1) t)
+    | Some old, Some r =>
+        if rule_fires r old
+        then mk_result v1 1 false 1 (upd_where (fun x => r_id x =? r_id v1) (oc_apply now r v1) t)
+        else mk_result v1 0 false 1 t
     end.
 
 (* DB.Save on a struct *)
